@@ -38,4 +38,11 @@ func HC06_fileAssignment() {
 	}
 	vfObserve("file", got)
 	vfAssert(got == want, "C06/named-type-is-emitted-in-the-file-assigned-to-its-package")
+	// a second type, of another package that has the same package name
+	pkg2 := types.NewPackage(parent+"/other/p", "p")
+	named2 := types.NewNamed(types.NewTypeName(0, pkg2, "T", nil), types.NewStruct(nil, nil), nil)
+	both := []*Analysis{{Types: map[types.Type]Type{named: &Struct{Name: named}, named2: &Struct{Name: named2}}}}
+	lk2 := NewLinker("/home/u/go/src/"+parent+"/models", both)
+	lk2.Extension = ".dart"
+	vfAssert(lk2.GetOutput(named) == want && lk2.GetOutput(named2) == "other_p.dart", "C06/named-type-is-emitted-in-the-file-assigned-to-its-package")
 }
